@@ -264,86 +264,90 @@ def gen(tier, rng):
     vmax = 3
     for ity, p in q.ext:
         ext_cases(out, "q", ity, p, rng, vmax, heavy=True)
-    # mdarray
-    for ity, p in q.arr:
-        k = key("A", ity, p)
-        for v in itertools.product(range(0, 4), repeat=ndyn(p)):
-            xs = fill(p, v)
-            pr = 1
-            for x in xs:
-                pr *= x
-            if pr > 64:
-                continue
-            for lay in "LR":
-                for cont in "VA":
-                    out.append("mda_all q %s ; %s %s %s" % (k, lay, cont, lst(v)))
-    # converting constructors
-    for i2, p2, i1, p1 in q.conv:
-        k = "C %s %s %s %s" % (i2, gt.patkey(p2), i1, gt.patkey(p1))
-        nd = ndyn(p1)
-        vals = set()
-        # values that satisfy the precondition (equal to the destination's static extents) ...
-        want = [p2[j] if p2[j] != D else None for j in range(len(p1)) if p1[j] == D]
-        for _ in range(4):
-            vals.add(tuple(w if w is not None else rng.choice([0, 1, 2, 3, 5, 100, 127]) for w in want))
-        # ... and arbitrary ones (outside the standard's domain when they differ or do not fit)
-        for _ in range(3):
-            vals.add(tuple(rng.choice([0, 1, 2, 3, 4, 127, 128, 255, 256, 1 << 31, (1 << 32) + 2, imax(i1)])
-                           for _ in range(nd)))
-        for v in sorted(vals):
-            out.append("ext_conv q %s ; %s" % (k, lstw(i1, v)))
-        # operator==: equal and unequal value assignments, values that differ only outside the narrower type
-        nd2 = ndyn(p2)
-        for _ in range(4):
-            full1 = [(p2[j] if (p2[j] != D and rng.random() < 0.7) else rng.choice([0, 1, 2, 3, 5, 100]))
-                     for j in range(len(p1))]
-            xs1 = [p1[j] if p1[j] != D else full1[j] for j in range(len(p1))]
-            v1 = [xs1[j] for j in range(len(p1)) if p1[j] == D]
-            w_eq = [xs1[j] for j in range(len(p2)) if p2[j] == D]
-            out.append("ext_eq q %s ; %s %s" % (k, lstw(i1, v1), lstw(i2, w_eq)))
-            if nd2 > 0:
-                w_ne = list(w_eq)
-                j = rng.randrange(nd2)
-                w_ne[j] = w_ne[j] + rng.choice([1, 2, 256, 1 << 32])
-                out.append("ext_eq q %s ; %s %s" % (k, lstw(i1, v1), lstw(i2, w_ne)))
-            if nd > 0:
-                v_ne = list(v1)
-                j = rng.randrange(nd)
-                v_ne[j] = v_ne[j] + rng.choice([1, 3, 256, 1 << 32])
-                out.append("ext_eq q %s ; %s %s" % (k, lstw(i1, v_ne), lstw(i2, w_eq)))
-        v = sorted(vals)[0]
-        kinds = ["LL", "RR", "MD", "SL", "SR", "LS", "RS"] + (["LR", "RL"] if len(p1) <= 1 else [])
-        for kind in kinds:
-            out.append("map_conv q %s ; %s %s" % (k, lstw(i1, v), kind))
-            out.append("map_conv q %s ; %s %s" % (k, lstw(i1, sorted(vals)[-1]), kind))
-    # layout_transpose: key = pattern of the transposed view, values = dynamic extents of the nested mapping
-    def transp(tag, table):
-        for ity, a, b in table:
-            k = key("T", ity, (a, b))
-            nd = ndyn((b, a))
-            for v in itertools.product(range(0, 4), repeat=nd):
+    def table_block(out, q):
+        """mdarray / converting constructors / layout_transpose / submdspan_extents cases of one instantiation
+        table, written with tier letter q (re-tagged for the thorough table below)"""
+        # mdarray
+        for ity, p in q.arr:
+            k = key("A", ity, p)
+            for v in itertools.product(range(0, 4), repeat=ndyn(p)):
+                xs = fill(p, v)
+                pr = 1
+                for x in xs:
+                    pr *= x
+                if pr > 64:
+                    continue
                 for lay in "LR":
-                    out.append("transp_all %s %s ; %s %s" % (tag, k, lay, lst(v)))
-            for _ in range(2):
-                v = [rng.choice([5, 7, 11, 12]) for _ in range(nd)]
-                out.append("transp_all %s %s ; %s %s" % (tag, k, rng.choice("LR"), lst(v)))
-    transp("q", q.transp)
-    # submdspan_extents
-    for ity, p, sl in q.sub:
-        k = "S %s %s %s" % (ity, gt.patkey(p), sl)
-        nd = ndyn(p)
-        if "P" in sl or "C" in sl or "K" in sl:
-            pair_cases(out, k, p, sl, rng)
-            continue
-        combos = list(itertools.product(range(0, 4), repeat=nd))
-        for v in combos:
+                    for cont in "VA":
+                        out.append("mda_all q %s ; %s %s %s" % (k, lay, cont, lst(v)))
+        # converting constructors
+        for i2, p2, i1, p1 in q.conv:
+            k = "C %s %s %s %s" % (i2, gt.patkey(p2), i1, gt.patkey(p1))
+            nd = ndyn(p1)
+            vals = set()
+            # values that satisfy the precondition (equal to the destination's static extents) ...
+            want = [p2[j] if p2[j] != D else None for j in range(len(p1)) if p1[j] == D]
+            for _ in range(4):
+                vals.add(tuple(w if w is not None else rng.choice([0, 1, 2, 3, 5, 100, 127]) for w in want))
+            # ... and arbitrary ones (outside the standard's domain when they differ or do not fit)
+            for _ in range(3):
+                vals.add(tuple(rng.choice([0, 1, 2, 3, 4, 127, 128, 255, 256, 1 << 31, (1 << 32) + 2, imax(i1)])
+                               for _ in range(nd)))
+            for v in sorted(vals):
+                out.append("ext_conv q %s ; %s" % (k, lstw(i1, v)))
+            # operator==: equal and unequal value assignments, values that differ only outside the narrower type
+            nd2 = ndyn(p2)
+            for _ in range(4):
+                full1 = [(p2[j] if (p2[j] != D and rng.random() < 0.7) else rng.choice([0, 1, 2, 3, 5, 100]))
+                         for j in range(len(p1))]
+                xs1 = [p1[j] if p1[j] != D else full1[j] for j in range(len(p1))]
+                v1 = [xs1[j] for j in range(len(p1)) if p1[j] == D]
+                w_eq = [xs1[j] for j in range(len(p2)) if p2[j] == D]
+                out.append("ext_eq q %s ; %s %s" % (k, lstw(i1, v1), lstw(i2, w_eq)))
+                if nd2 > 0:
+                    w_ne = list(w_eq)
+                    j = rng.randrange(nd2)
+                    w_ne[j] = w_ne[j] + rng.choice([1, 2, 256, 1 << 32])
+                    out.append("ext_eq q %s ; %s %s" % (k, lstw(i1, v1), lstw(i2, w_ne)))
+                if nd > 0:
+                    v_ne = list(v1)
+                    j = rng.randrange(nd)
+                    v_ne[j] = v_ne[j] + rng.choice([1, 3, 256, 1 << 32])
+                    out.append("ext_eq q %s ; %s %s" % (k, lstw(i1, v_ne), lstw(i2, w_eq)))
+            v = sorted(vals)[0]
+            kinds = ["LL", "RR", "MD", "SL", "SR", "LS", "RS"] + (["LR", "RL"] if len(p1) <= 1 else [])
+            for kind in kinds:
+                out.append("map_conv q %s ; %s %s" % (k, lstw(i1, v), kind))
+                out.append("map_conv q %s ; %s %s" % (k, lstw(i1, sorted(vals)[-1]), kind))
+        # layout_transpose: key = pattern of the transposed view, values = dynamic extents of the nested mapping
+        def transp(tag, table):
+            for ity, a, b in table:
+                k = key("T", ity, (a, b))
+                nd = ndyn((b, a))
+                for v in itertools.product(range(0, 4), repeat=nd):
+                    for lay in "LR":
+                        out.append("transp_all %s %s ; %s %s" % (tag, k, lay, lst(v)))
+                for _ in range(2):
+                    v = [rng.choice([5, 7, 11, 12]) for _ in range(nd)]
+                    out.append("transp_all %s %s ; %s %s" % (tag, k, rng.choice("LR"), lst(v)))
+        transp("q", q.transp)
+        # submdspan_extents
+        for ity, p, sl in q.sub:
+            k = "S %s %s %s" % (ity, gt.patkey(p), sl)
+            nd = ndyn(p)
+            if "P" in sl or "C" in sl or "K" in sl:
+                pair_cases(out, k, p, sl, rng)
+                continue
+            combos = list(itertools.product(range(0, 4), repeat=nd))
+            for v in combos:
+                xs = fill(p, v)
+                ks = [(rng.randrange(0, x) if x > 0 else 0) for x in xs]
+                out.append("subext q %s ; %s %s" % (k, lst(v), lst(ks)))
+            v = rng.choice(combos)
             xs = fill(p, v)
-            ks = [(rng.randrange(0, x) if x > 0 else 0) for x in xs]
-            out.append("subext q %s ; %s %s" % (k, lst(v), lst(ks)))
-        v = rng.choice(combos)
-        xs = fill(p, v)
-        out.append("subext q %s ; %s %s" % (k, lst(v), lst([x for x in xs])))       # index == extent: out of range
-        out.append("subext q %s ; %s %s" % (k, lst([5 + j for j in range(nd)]), lst([1 for _ in xs])))
+            out.append("subext q %s ; %s %s" % (k, lst(v), lst([x for x in xs])))       # index == extent: out of range
+            out.append("subext q %s ; %s %s" % (k, lst([5 + j for j in range(nd)]), lst([1 for _ in xs])))
+    table_block(out, q)
     # span
     span_cases(out, q, rng)
     # the quick cases of the instantiations that also exist in the sanitizer build run a second time there
@@ -361,7 +365,13 @@ def gen(tier, rng):
         t = gt.thorough_table()
         for ity, p in t.ext:
             ext_cases(out, "t", ity, p, rng, 4 if (len(p) == 4 or 4 in p) else 3, heavy=len(p) < 4)
-        transp("t", t.transp)
+        # the mdarray / conversion / transpose / submdspan_extents instantiations that exist only in the thorough harness
+        tmp = []
+        table_block(tmp, t)
+        for c in tmp:
+            toks = c.split(" ")
+            toks[1] = "t"
+            out.append(" ".join(toks))
     return out
 
 
@@ -397,21 +407,24 @@ def pair_cases(out, k, p, sl, rng):
 def span_cases(out, q, rng):
     maxlen = 6
     lens = lambda x: [x] if x != D else list(range(0, maxlen + 1))  # noqa: E731
+    # compile-time forms; on a dynamic-extent parent (x == D) also the arguments outside [span.sub]'s domain
+    # (Count > size(), Offset > size()): the run-time checks of the library must fire (reference/spec: na)
     for x, c in q.spf:
         for ln in lens(x):
-            if c <= ln:
+            if c <= ln or x == D:
                 for start in (0, 3):
                     out.append("sp_first_s q sp_first_s %d %d ; %d %d" % (x, c, start, ln))
                     out.append("sp_last_s q sp_last_s %d %d ; %d %d" % (x, c, start, ln))
     for x, o, c in q.sps:
         for ln in lens(x):
-            if o <= ln and (c == D or c <= ln - o):
+            if (o <= ln and (c == D or c <= ln - o)) or x == D:
                 for start in (0, 2):
                     out.append("sp_sub_s q sp_sub_s %d %d %d ; %d %d" % (x, o, c, start, ln))
     big = [(1 << 64) - 2, 1 << 63, (1 << 64) - 1]
     for x in q.spd:
         for ln in lens(x):
             for start in (0, 5):
+                out.append("sp_fb q sp_dyn %d ; %d %d 0 0" % (x, start, ln))
                 for a in list(range(0, maxlen + 2)) + [-1] + big[:1]:
                     out.append("sp_first_d q sp_dyn %d ; %d %d %d 0" % (x, start, ln, a))
                     out.append("sp_last_d q sp_dyn %d ; %d %d %d 0" % (x, start, ln, a))
